@@ -3,6 +3,8 @@ mod driver;
 mod e1;
 mod e2;
 mod e3;
+mod e4;
+mod http;
 mod model;
 mod props;
 mod rng;
